@@ -142,7 +142,10 @@ def evalX (flds : List Col) (r : Row) : Expr → Val
   | .col c => get r c
   | .cmp op a b =>
     if canRaw flds (.cmp op a b) then unpackBool (evalRaw r (.cmp op a b))
-    else .bool (cmpVal op (evalX flds r a) (evalX flds r b))
+    else if canRaw flds a then .bool (cmpVal op (evalX flds r a) (evalX flds r b))
+    -- `a.RawOp() && a.Lhs.CanEvalRaw(flds) && a.Rhs.CanEvalRaw(flds)` short-circuits: when the
+    -- left side is not raw the right side's flags are never set
+    else .bool (cmpVal op (evalX flds r a) (eval r b))
   | .not a =>
     if canRaw flds a then unpackBool (evalRaw r (.not a))
     else .bool (!isTrue (evalX flds r a))
@@ -159,7 +162,8 @@ def evalX (flds : List Col) (r : Row) : Expr → Val
   | .inl a vs =>
     if canRaw flds a then unpackBool (evalRaw r (.inl a vs))
     else .bool (vs.contains (evalX flds r a))
-  | .ar op a b => arith op (evalX flds r a) (evalX flds r b)
+  -- `Nary.CanEvalRaw` does not visit the operands of `+ - *`: they keep cleared flags
+  | .ar op a b => arith op (eval r a) (eval r b)
   | .neg a => negVal (evalX flds r a)
 
 end Gsu.QExpr
